@@ -69,6 +69,20 @@ class Cond:
     test: ast.AST  # the controlling expression (or For/Try stmt for loop/exc kinds)
     polarity: object  # True/False for tests; 'iter'/'exc'/'handler' otherwise
     kind: str  # if while assert boolop ifexp comp for try
+    raw: object = None  # the test as written, when `test` was normalised (leading `not`s stripped)
+    raw_polarity: object = None
+
+    def normalised(self) -> "Cond":
+        """`not X` taken with polarity P is X taken with polarity not P."""
+        t, p = self.test, self.polarity
+        if p not in (True, False):
+            return self
+        changed = False
+        while isinstance(t, ast.UnaryOp) and isinstance(t.op, ast.Not):
+            t, p, changed = t.operand, (not p), True
+        if not changed:
+            return self
+        return Cond(t, p, self.kind, raw=self.test, raw_polarity=self.polarity)
 
     def key(self):
         return (ast.dump(self.test), self.polarity)
